@@ -397,6 +397,13 @@ def main(argv=None):
     import warnings
 
     warnings.filterwarnings("ignore")
+    try:  # kill -USR1 <pid> dumps the Python stack of a (possibly stuck) worker to stderr
+        import faulthandler
+        import signal
+
+        faulthandler.register(signal.SIGUSR1, all_threads=True)
+    except Exception:
+        pass
     parser = argparse.ArgumentParser()
     parser.add_argument("property")
     parser.add_argument("--tier", default=os.environ.get("VERIF_TIER") or "quick", choices=["quick", "thorough"])
